@@ -290,9 +290,15 @@ def a1_items(tier):
     out = []
     for a in sa + sa3:
         for b in sb:
-            for share in ((False, True) if (shapes.shape_nobj(a) and shapes.shape_nobj(b)) else (False,)):
+            # setting objects are shared between the operands only in the way the API can produce it:
+            # the right operand is a copy of the left one (a + a.copy(), same roles for every object);
+            # s[:k] + s[k:] is covered by group A3, which runs the real slicing first
+            # (objects occurring in several intervals of one operand are not combined with sharing: no API
+            # history was found that produces such a pair, and the states it leads to are not claimed)
+            for share in ((False, True) if (shapes.shape_nobj(a) and a == b and not shapes.shape_has_reuse(a)) else (False,)):
                 out.append([a, b, 'ansistring', share])
-        out.append([a, [], 'self', False])
+        if not shapes.shape_has_reuse(a):
+            out.append([a, [], 'self', False])
         out.append([a, [], 'str', False])
         out.append([a, [], 'badtype', False])
     for b in sb:
